@@ -288,9 +288,11 @@ pub fn iota_did_accessors(d: &IotaDID, deep: bool) {
   st("IotaDID::to_url");
   let u = d.to_url();
   bb(u.to_string());
-  st("IotaDID::into CoreDID/String");
+  st("IotaDID::into CoreDID");
   bb(CoreDID::from(d.clone()));
-  bb(String::from(d.clone()));
+  // NOTE: `String::from(IotaDID)` / `DID::into_string` on an IotaDID do not terminate (mutual recursion between
+  // `From<IotaDID> for String` and the trait's default `into_string`); a hang cannot be observed in-process, so
+  // that accessor is exercised by the census family in a child process (entry `hostile/IotaDID::into_string`).
   if deep {
     st("IotaDID::join(#k)");
     if let Ok(u) = d.clone().join("#k") {
